@@ -17,7 +17,7 @@ func init() {
 	register(&propCheck{
 		id:    "C11",
 		level: "other",
-		explanation: "Static decision of the tables whose order and completeness the property singles out: (D1) the deserialiser's decision list (a 30-way chain of equality and substring tests) is evaluated symbolically for the text of every error kind — as is and blank-padded (upper-cased variants are reported as information only: serialisation never changes case) — and the first matching case must return that very kind; kind texts contain neither ':' nor a newline (the serialised form splits on them); (D2) every kind appears in IsCommonError and has a case of its own; (D3) Errorf's format has exactly one %w, first, bound to the target kind after ConvertContextError / the ErrUnknown default, and WrapError lets a cancellation/deadline cause replace the target; (D4) the converters named by the property pass their argument through ConvertContextError before any classification, and a pass-through case for ErrTimeout/ErrCancelled precedes every re-classifying case; (D5) every call of commonerrors.Any/None outside tests has at least one candidate (a call with the target alone is constantly false/true: the condition it was written for is never mapped). (D6) the deserialiser re-joins every ':'-separated element after the kind into the reason, empty ones included (unconditional append in a loop from index 1). Decided on the typed AST and SSA with go/constant; nothing is executed. Not decided: arbitrary reasons and wrapping chains (string behaviour of fmt/errors/strings), joined errors, errors.Is itself.",
+		explanation: "Static decision of the tables whose order and completeness the property singles out: (D1) the deserialiser's decision list (a 30-way chain of equality and substring tests) is evaluated symbolically for the text of every error kind — as is and blank-padded (upper-cased variants are reported as information only: serialisation never changes case) — and the first matching case must return that very kind; kind texts contain neither ':' nor a newline (the serialised form splits on them); (D2) every kind appears in IsCommonError and has a case of its own; (D3) Errorf's format has exactly one %w, first, bound to the target kind after ConvertContextError / the ErrUnknown default, and WrapError lets a cancellation/deadline cause replace the target; (D4) the converters named by the property pass their argument through ConvertContextError before any classification, and a pass-through case for ErrTimeout/ErrCancelled precedes every re-classifying case; (D5) every call of commonerrors.Any/None outside tests has at least one candidate (a call with the target alone is constantly false/true: the condition it was written for is never mapped). (D7) the separator the constructors write between kind and reason is the one the deserialiser splits on, and joined errors are written and split on the newline errors.Join uses; (D6) the deserialiser re-joins every ':'-separated element after the kind into the reason, empty ones included (unconditional append in a loop from index 1). Decided on the typed AST and SSA with go/constant; nothing is executed. Not decided: arbitrary reasons and wrapping chains (string behaviour of fmt/errors/strings), joined errors, errors.Is itself.",
 		run:   runC11,
 		assumptions: []string{
 			"errors.Is and fmt.Errorf(\"%w\") behave as documented",
@@ -93,6 +93,7 @@ func runC11(c *Ctx) {
 	c.rule("D3", "Errorf: one %w, first, bound to the target kind after ConvertContextError (ErrUnknown when nil); WrapError: a cancellation/deadline cause replaces the target kind", 3)
 	c.rule("D4", "converters normalise context errors first; a pass-through case for ErrTimeout/ErrCancelled precedes every re-classifying case", 5)
 	c.rule("D6", "deserialisation re-joins every element after the kind into the reason: loop from index 1, step one, unconditional append of the (trimmed) element", 1)
+	c.rule("D7", "writer and reader of the text form agree on the separators: kind/reason (constructors vs deserialiser) and joined errors (marshaller, errors.Join vs deserialiser)", 2)
 	c.rule("D5", "every call of commonerrors.Any / None has at least one candidate error", 45)
 
 	p := c.tpkg(cePkg)
@@ -270,6 +271,94 @@ func runC11(c *Ctx) {
 	c.c11Converters()
 	c.c11Vacuous()
 	c.c11Reason()
+	c.c11Separators()
+}
+
+// c11Separators (D7): writer and reader of the text form agree. The constructors write "kind<sep> reason" and the
+// multi-error marshaller ends each item with <msep> (errors.Join uses "\n"); the deserialiser splits on them.
+func (c *Ctx) c11Separators() {
+	constArgs := func(f *ssa.Function, callee string, idx int) []string {
+		var out []string
+		allInstrs(f, func(in ssa.Instruction) {
+			cl, ok := in.(*ssa.Call)
+			if !ok || calleeFull(&cl.Call) != callee || idx >= len(cl.Call.Args) {
+				return
+			}
+			if sv, ok := constString(cl.Call.Args[idx]); ok {
+				out = append(out, sv)
+			} else {
+				out = append(out, "<not constant>")
+			}
+		})
+		return out
+	}
+	line := c.fn(cePkg, "processErrorStrLine")
+	multi := c.fn(cePkg, "processErrorStr")
+	errorf := c.fn(cePkg, "Errorf")
+	marshal := c.fn(cePkg, "(*multiplemarshallingError).MarshalText")
+	for _, f := range []*ssa.Function{line, multi, errorf, marshal} {
+		c.FuncsSeen[fname(f)] = true
+	}
+	// reader side
+	splitLine := constArgs(line, "strings.Split", 1)
+	splitMulti := constArgs(multi, "strings.Split", 1)
+	// writer side: the separator operand of Errorf's final fmt.Errorf("%w%v %v", kind, sep, msg)
+	var written []string
+	allInstrs(errorf, func(in ssa.Instruction) {
+		cl, ok := in.(*ssa.Call)
+		if !ok || calleeFull(&cl.Call) != "fmt.Errorf" {
+			return
+		}
+		format, _ := constString(cl.Call.Args[0])
+		el := variadicElems(cl.Call.Args[1])
+		if strings.HasPrefix(format, "%w%v") && len(el) >= 2 {
+			if sv, ok := constString(stripConv(el[1])); ok {
+				written = append(written, sv)
+			} else if mi, ok := el[1].(*ssa.MakeInterface); ok {
+				if sv, ok := constString(mi.X); ok {
+					written = append(written, sv)
+				}
+			}
+		} else if strings.HasPrefix(format, "%w") && len(format) > 2 {
+			written = append(written, string(format[2]))
+		}
+	})
+	key := "commonerrors/kind-reason-separator"
+	switch {
+	case len(splitLine) != 1 || len(written) != 1:
+		c.undecided("D7", key, c.pos(line.Pos()), "expected one strings.Split in processErrorStrLine and one separator operand in Errorf, found "+strconv.Itoa(len(splitLine))+" and "+strconv.Itoa(len(written)))
+	case splitLine[0] != written[0]:
+		c.violate("D7", key, c.pos(line.Pos()), "the deserialiser splits kind and reason on "+strconv.Quote(splitLine[0])+" but the constructors write "+strconv.Quote(written[0])+" between them: no serialised error is recognised as its kind any more")
+	default:
+		c.ok("D7", key, c.pos(line.Pos()), "constructors write and deserialiser splits on "+strconv.Quote(written[0]))
+	}
+	// multi-error: marshaller appends the separator byte after each item
+	var appended []string
+	allInstrs(marshal, func(in ssa.Instruction) {
+		cl, ok := in.(*ssa.Call)
+		if !ok {
+			return
+		}
+		if b, isB := cl.Call.Value.(*ssa.Builtin); !isB || b.Name() != "append" {
+			return
+		}
+		for _, e := range variadicElems(cl.Call.Args[len(cl.Call.Args)-1]) {
+			if k, ok := e.(*ssa.Const); ok && k.Value != nil {
+				if n, ok := constInt(e); ok {
+					appended = append(appended, string(rune(n)))
+				}
+			}
+		}
+	})
+	key = "commonerrors/multiple-error-separator"
+	switch {
+	case len(splitMulti) != 1 || len(appended) != 1:
+		c.undecided("D7", key, c.pos(multi.Pos()), "expected one strings.Split in processErrorStr and one separator byte appended in MarshalText, found "+strconv.Itoa(len(splitMulti))+" and "+strconv.Itoa(len(appended)))
+	case splitMulti[0] != appended[0] || splitMulti[0] != "\n":
+		c.violate("D7", key, c.pos(multi.Pos()), "joined errors are written with "+strconv.Quote(appended[0])+" (errors.Join: \"\\n\") but split on "+strconv.Quote(splitMulti[0])+": the kinds of a joined error do not survive serialisation")
+	default:
+		c.ok("D7", key, c.pos(multi.Pos()), "joined errors are written and split on the newline errors.Join uses")
+	}
 }
 
 // c11Reason (D6): "the same reason up to whitespace around colons". processErrorStrLine splits the text on the
